@@ -2,6 +2,7 @@ package db
 
 import (
 	"errors"
+	"Havoc/pkg/verifhook"
 	//"log"
 )
 
@@ -33,6 +34,7 @@ func (db *DB) LinkAdd(ParentAgentID int, LinkAgentID int) error {
 	}
 
 	/* add the data to the links table */
+	verifhook.Point("db.LinkAdd.exec")
 	_, err = stmt.Exec(ParentAgentID, LinkAgentID)
 	if err != nil {
 		return err
@@ -141,6 +143,7 @@ func (db *DB) LinkRemove(ParentAgentID int, LinkAgentID int) error {
 	}
 
 	// execute statement
+	verifhook.Point("db.LinkRemove.exec")
 	_, err = stmt.Exec(ParentAgentID, LinkAgentID)
 	stmt.Close()
 
